@@ -73,7 +73,7 @@ class Generator:
             self._I.A[site] = local_I().add_leg(axis=0, s=-1).add_leg(axis=2, s=1)
 
         self.config = self._I.A[0].config
-        self.parameters = {} if parameters is None else parameters
+        self.parameters = {} if parameters is None else dict(parameters)  # the caller's dictionary is left as it is
         self.parameters["minus"] = -float(1.0)
         self.parameters["1j"] = 1j
 
